@@ -14,11 +14,11 @@ def gsig(c):
 GKEYS = ["nT", "nS", "rules", "inputs", "prec", "lookaheads", "markers", "k", "tag"]
 
 
-def universe(ctx, name, maxrules, maxrhs, stride, prec=False):
+def universe(ctx, name, maxrules, maxrhs, stride, prec=False, allprec=False):
     f = ctx.path("ug-%s.ndjson" % name)
     ctx.tlc("LalrGen", "Gen.cfg", workers=1, timeout=3000, name="gen-" + name,
             env={"VERIF_OUT": f, "VERIF_UG_MAXRULES": maxrules, "VERIF_UG_MAXRHS": maxrhs, "VERIF_UG_STRIDE": stride,
-                 "VERIF_UG_OFFSET": ctx.seed % stride, "VERIF_UG_PREC": "1" if prec else "0"})
+                 "VERIF_UG_OFFSET": ctx.seed % stride, "VERIF_UG_PREC": "1" if prec else "0", "VERIF_UG_ALLPREC": "1" if allprec else "0"})
     return f
 
 
